@@ -42,10 +42,10 @@ type Case struct {
 }
 
 var opKinds = map[string][]string{
-	"image":         {"Hash", "Bytes", "Open", "Signatures", "Verify", "Verify", "VerifyOutsider"},
+	"image":         {"Hash", "Bytes", "Open", "Signatures", "Verify", "Verify", "VerifyOutsider", "VerifyTwin"},
 	"database":      {"Bytes", "Marshal", "SigDataExists", "BytesExists", "Exists", "ListBytes"},
 	"signed_update": {"Marshal", "Bytes"},
-	"descriptor":    {"Marshal", "Verify", "VerifyOutsider"},
+	"descriptor":    {"Marshal", "Verify", "VerifyOutsider", "VerifyTwin"},
 }
 
 func genCase(t *rapid.T) Case {
@@ -136,6 +136,14 @@ func imageRunner(bin *authenticode.PECOFFBinary, signers []int) runner {
 			return fmt.Sprintf("%d %x %v", len(sigs), h.Sum(nil)[:8], err)
 		case "Verify":
 			ok, err := bin.Verify(ids[signers[op.Arg%len(signers)]].Cert)
+			return fmt.Sprint(ok, err)
+		case "VerifyTwin":
+			// same issuer and serial as a signer, another key: reaches the signature check and fails there
+			tw, terr := gen.Twin(ids[signers[op.Arg%len(signers)]], 5)
+			if terr != nil {
+				return "twin: " + terr.Error()
+			}
+			ok, err := bin.Verify(tw.Cert)
 			return fmt.Sprint(ok, err)
 		default:
 			ok, err := bin.Verify(ids[7].Cert)
@@ -295,6 +303,13 @@ func checkCase(c Case) error {
 						return digest(b.Bytes())
 					case "Verify":
 						ok, err := a.Verify(id.Cert)
+						return fmt.Sprint(ok, err)
+					case "VerifyTwin":
+						tw, terr := gen.Twin(id, 5)
+						if terr != nil {
+							return "twin: " + terr.Error()
+						}
+						ok, err := a.Verify(tw.Cert)
 						return fmt.Sprint(ok, err)
 					default:
 						ok, err := a.Verify(gen.FixedIdents()[7].Cert)
